@@ -13,8 +13,9 @@ RULE = ('generated documents in which every comment, formula and discarded const
         'formula.')
 EXHAUSTIVE = {'quick': False, 'thorough': False}
 ASSUMPTIONS = ['with math_mode=verbatim the SOURCE of a formula is reproduced, comments inside it included (the second clause '
-               'of the property wins over the first); comments are never generated between a macro and its argument '
-               '(the expression parser consumes them: they are in no node)',
+               'of the property wins over the first); a comment between a macro and its argument is in no node (the '
+               'expression parser consumes it): generated, and its absence under keep_comments is the known finding '
+               'kept-comment-missing:before-argument',
                'fill_text is exercised on the real code only (textwrap is an oracle)']
 PARTIAL = ['C12_comments_kept_covered_partial: presence of every kept comment is proved for the covered positions (lists, '
            'groups, transparent environments, argument-concatenating macros, positional and keyed replacement templates, '
@@ -46,7 +47,7 @@ PARTIAL = ['C12_comments_kept_covered_partial: presence of every kept comment is
            'identical - comments inside any other environment remain free (C12_relational2 refines C12_relational: the '
            'source slice of an environment matters only for equation environments). Partial only in that the extended '
            'grammar is not the whole of LaTeX (see notes/C02.md)']
-REFUTED = []
+REFUTED = ['"with keep_comments every comment appears" is false for a comment written between a macro and its argument (C12_comments_kept_not_covered_witness, row \\textbf%c{x}; known finding kept-comment-missing:before-argument)']
 CASE_TIMEOUT = 10.0
 
 
@@ -119,7 +120,12 @@ class Gen:
             return '{' + self.items(depth + 1, visible) + '}'
         if k < 0.78:
             m = r.choice(['\\textbf', '\\emph', '\\textit', '\\text', '\\mbox'])
-            return m + '{' + self.items(depth + 1, visible and m != '\\mbox') + '}'
+            pre = ''
+            if r.random() < 0.12:
+                # a comment between the macro and its argument: the expression parser skips it, it is in no node
+                # (known finding kept-comment-missing:before-argument)
+                pre = r.choice(['', ' ']) + self.comment(visible, in_math='PREARG').rstrip(' ').replace('\n\n', '\n')
+            return m + pre + '{' + self.items(depth + 1, visible and m != '\\mbox') + '}'
         if k < 0.84 and not self.nobr:
             self.nobr += 1
             inner = self.items(depth + 1, visible)
@@ -214,8 +220,16 @@ def oracle(c):
     squeeze = (lambda x: ' '.join(x.split())) if fill else (lambda x: x)
     outq = squeeze(out)
     mathsrc = {m[0]: m for m in meta['maths']}
+    known = None
     for m, visible, in_math in meta['comments']:
         present = m in out
+        if in_math == 'PREARG':
+            if not o.get('keep_comments'):
+                if present:
+                    return ('comment-leaks', {'marker': m})
+            elif visible and not present:
+                known = ('kept-comment-missing:before-argument', {'marker': m})
+            continue
         if in_math is not None:
             # inside a formula: visible exactly when the formula's source is reproduced
             if mm in ('remove',) and present:
@@ -252,7 +266,7 @@ def oracle(c):
     for m in meta['discards']:
         if m in out:
             return ('discarded-construct-leaks', {'marker': m})
-    return None
+    return known
 
 
 def distribution(cases, impl_out):
